@@ -101,6 +101,8 @@ func ruleRecoverInstalled(c *Ctx, rule string) {
 				}
 				if mc, ok := d.Call.Value.(*ssa.MakeClosure); ok && isRecClosure[mc.Fn.(*ssa.Function)] {
 					defers = append(defers, in)
+				} else if g := an.StaticCallee(&d.Call); g != nil && isRecClosure[g] {
+					defers = append(defers, in) // a named function that calls recover() itself, deferred directly
 				}
 			})
 		}
@@ -118,33 +120,33 @@ func ruleRecoverInstalled(c *Ctx, rule string) {
 		}
 		// calls that can run user code (directly or below): every call except trivial context accessors
 		for _, fn := range fam {
-		fn := fn
-		an.AllInstrs(fn, func(in ssa.Instruction) {
-			call, ok := in.(*ssa.Call)
-			if !ok {
-				return
-			}
-			n := an.CalleeName(&call.Call)
-			if strings.HasPrefix(n, "builtin:") || n == "types.NewContext" {
-				return
-			}
-			protect := strings.HasPrefix(n, "dynamic:") || strings.HasPrefix(n, "invoke:") || strings.HasSuffix(n, ".Handler") || strings.HasSuffix(n, ".handle") || strings.HasSuffix(n, ".serveContext")
-			if key == "mux.(*Group).ServeHTTP" {
-				// the routers recover for themselves; the group covers its own not-found call
-				protect = strings.HasPrefix(n, "dynamic:recv.call")
-			}
-			if !protect {
-				return
-			}
-			if fn != f && (strings.HasSuffix(n, ".serveContext") || strings.HasSuffix(n, ".Handler")) && key == "mux.(*Group).ServeHTTP" {
-				return
-			}
-			path := (&an.Query{Assume: assume, Deep: deepDefault, Target: func(t ssa.Instruction) bool { return t == in }, Block: isDefer}).Search(an.Entry(f))
-			o := c.R.Add(rule, key, "call:"+n+"/after-deferred-recover", c.pos(in), path == nil, ifelse(path == nil, "with a recovery function configured the deferred recover is installed before this call", "with a recovery function configured this call can run before the deferred recover is installed: a panic below it escapes ServeHTTP"))
-			if path != nil {
-				o.Path = c.P.PathString(path)
-			}
-		})
+			fn := fn
+			an.AllInstrs(fn, func(in ssa.Instruction) {
+				call, ok := in.(*ssa.Call)
+				if !ok {
+					return
+				}
+				n := an.CalleeName(&call.Call)
+				if strings.HasPrefix(n, "builtin:") || n == "types.NewContext" {
+					return
+				}
+				protect := strings.HasPrefix(n, "dynamic:") || strings.HasPrefix(n, "invoke:") || strings.HasSuffix(n, ".Handler") || strings.HasSuffix(n, ".handle") || strings.HasSuffix(n, ".serveContext")
+				if key == "mux.(*Group).ServeHTTP" {
+					// the routers recover for themselves; the group covers its own not-found call
+					protect = strings.HasPrefix(n, "dynamic:recv.call")
+				}
+				if !protect {
+					return
+				}
+				if fn != f && (strings.HasSuffix(n, ".serveContext") || strings.HasSuffix(n, ".Handler")) && key == "mux.(*Group).ServeHTTP" {
+					return
+				}
+				path := (&an.Query{Assume: assume, Deep: deepDefault, Target: func(t ssa.Instruction) bool { return t == in }, Block: isDefer}).Search(an.Entry(f))
+				o := c.R.Add(rule, key, "call:"+n+"/after-deferred-recover", c.pos(in), path == nil, ifelse(path == nil, "with a recovery function configured the deferred recover is installed before this call", "with a recovery function configured this call can run before the deferred recover is installed: a panic below it escapes ServeHTTP"))
+				if path != nil {
+					o.Path = c.P.PathString(path)
+				}
+			})
 		}
 		for _, d := range defers {
 			dom := an.DominatedByEdge(d, recoverGuardEdge)
@@ -155,7 +157,27 @@ func ruleRecoverInstalled(c *Ctx, rule string) {
 	for _, cl := range closures {
 		good := cl.Parent() != nil
 		why := "recover() is called in a named function"
-		if good {
+		if !good {
+			// a named function: recover() works there only when the function itself is the deferred call
+			n, bad := 0, ""
+			for _, fn := range c.libFuncs() {
+				an.AllInstrs(fn, func(in ssa.Instruction) {
+					call := an.CallOf(in)
+					if call == nil || an.StaticCallee(call) != cl {
+						return
+					}
+					n++
+					if _, isDefer := in.(*ssa.Defer); !isDefer {
+						bad = c.pos(in)
+					}
+				})
+			}
+			good = n > 0 && bad == ""
+			if bad != "" {
+				why = "the function that calls recover() is called as an ordinary function at " + bad + " (not deferred itself): recover() returns nil there and the panic goes on"
+			}
+		}
+		if good && cl.Parent() != nil {
 			an.AllInstrs(cl.Parent(), func(in ssa.Instruction) {
 				if mc, ok := in.(*ssa.MakeClosure); ok && mc.Fn == ssa.Value(cl) {
 					for _, r := range *mc.Referrers() {
@@ -167,13 +189,13 @@ func ruleRecoverInstalled(c *Ctx, rule string) {
 				}
 			})
 		}
-		c.R.Add(rule, c.fk(cl), "recover/in-deferred-closure", c.P.Pos(cl.Pos()), good, ifelse(good, "recover() lives in a closure that is only ever deferred", why))
+		c.R.Add(rule, c.fk(cl), "recover/in-deferred-closure", c.P.Pos(cl.Pos()), good, ifelse(good, "recover() lives in a function that is only ever the deferred call itself", why))
 	}
 }
 
 // ruleRecoverClosure is C16.R2.
 func ruleRecoverClosure(c *Ctx, rule string) {
-	c.R.Rule(c.R.Property+"."+rule, 2, "the recovery function receives the original panic value exactly once")
+	c.R.Rule(c.R.Property+"."+rule, 1, "the recovery function receives the original panic value exactly once")
 	for _, cl := range recoverClosures(c) {
 		var rec ssa.Value
 		an.AllInstrs(cl, func(in ssa.Instruction) {
@@ -183,8 +205,22 @@ func ruleRecoverClosure(c *Ctx, rule string) {
 		})
 		var calls []*ssa.Call
 		an.AllInstrs(cl, func(in ssa.Instruction) {
-			if call, ok := in.(*ssa.Call); ok && strings.HasPrefix(an.CalleeName(&call.Call), "dynamic:") && strings.HasSuffix(an.CalleeName(&call.Call), ".recoverFunc") {
-				calls = append(calls, call)
+			if call, ok := in.(*ssa.Call); ok && strings.HasPrefix(an.CalleeName(&call.Call), "dynamic:") {
+				if strings.HasSuffix(an.CalleeName(&call.Call), ".recoverFunc") {
+					calls = append(calls, call)
+				} else if par, isPar := call.Call.Value.(*ssa.Parameter); isPar {
+					// the configured function handed to a named recovering function by every defer site
+					args := argsOfParam(par)
+					all := len(args) > 0
+					for _, a := range args {
+						if !strings.HasSuffix(an.AP(a), ".recoverFunc") {
+							all = false
+						}
+					}
+					if all {
+						calls = append(calls, call)
+					}
+				}
 			}
 		})
 		if len(calls) != 1 {
@@ -237,7 +273,7 @@ func ruleRecoverClosure(c *Ctx, rule string) {
 		// nothing re-panics after recovery either
 		repanic := false
 		an.AllInstrs(cl, func(in ssa.Instruction) {
-			if _, ok := in.(*ssa.Panic); ok {
+			if _, ok := in.(*ssa.Panic); ok && !isRangeFuncPanic(in) {
 				repanic = true
 			}
 		})
@@ -435,7 +471,35 @@ func ruleTraceHelper(c *Ctx, rule string) {
 	c.R.Rule(c.R.Property+"."+rule, 4, "the bundled Trace helper replies 200, Content-Type message/http, with the HTML-escaped dump of the request (body only when asked)")
 	f := c.P.MustFunc("trace.Trace")
 	var dump *ssa.Call
+	// the helper and the functions of its package it calls (writeMessage-style extractions); a term taken inside
+	// such a callee is rewritten with the arguments of its call site in Trace
+	cluster := []*ssa.Function{f}
+	callSite := map[*ssa.Function]*ssa.Call{}
 	an.AllInstrs(f, func(in ssa.Instruction) {
+		if call, ok := in.(*ssa.Call); ok {
+			if g := an.StaticCallee(&call.Call); g != nil && an.InModule(g) && g.Pkg == f.Pkg && len(g.Blocks) > 0 && callSite[g] == nil {
+				callSite[g] = call
+				cluster = append(cluster, g)
+			}
+		}
+	})
+	termOf := func(v ssa.Value, in ssa.Instruction) *an.Term {
+		t := c.O.Of(v)
+		if cs := callSite[in.Parent()]; cs != nil {
+			var args []*an.Term
+			for _, a := range an.CallArgs(&cs.Call) {
+				args = append(args, c.O.Of(a))
+			}
+			t = an.Substitute(t, in.Parent(), args)
+		}
+		return t
+	}
+	forEach := func(visit func(in ssa.Instruction)) {
+		for _, fn := range cluster {
+			an.AllInstrs(fn, visit)
+		}
+	}
+	forEach(func(in ssa.Instruction) {
 		call, ok := in.(*ssa.Call)
 		if !ok {
 			return
@@ -450,7 +514,7 @@ func ruleTraceHelper(c *Ctx, rule string) {
 			good := isC && k.Value != nil && k.Int64() == 200
 			c.R.Add(rule, c.fk(f), "status:200", c.pos(in), good, ifelse(good, "status 200", "the helper does not reply 200"))
 		case call.Call.IsInvoke() && call.Call.Method.Name() == "Write" && isResponseWriter(call.Call.Value.Type()):
-			t := c.O.Of(call.Call.Args[0]).String()
+			t := termOf(call.Call.Args[0], in).String()
 			good := strings.HasPrefix(t, "convert<[]byte>(call<html.EscapeString>(convert<string>(") && strings.Contains(t, "net/http/httputil.DumpRequest")
 			c.R.Add(rule, c.fk(f), "body:EscapeString(dump)", c.pos(in), good, ifelse(good, "the body is html.EscapeString of the dump", "the helper writes "+t+": not the HTML-escaped dump"))
 		case an.CalleeName(&call.Call) == "net/http.Header.Set":
@@ -465,12 +529,12 @@ func ruleTraceHelper(c *Ctx, rule string) {
 	_ = dump
 	// a Content-Length the helper sets itself must be the length of what it writes
 	var written *an.Term
-	an.AllInstrs(f, func(in ssa.Instruction) {
+	forEach(func(in ssa.Instruction) {
 		if call, ok := in.(*ssa.Call); ok && call.Call.IsInvoke() && call.Call.Method.Name() == "Write" && isResponseWriter(call.Call.Value.Type()) {
-			written = c.O.Of(call.Call.Args[0])
+			written = termOf(call.Call.Args[0], in)
 		}
 	})
-	an.AllInstrs(f, func(in ssa.Instruction) {
+	forEach(func(in ssa.Instruction) {
 		call, ok := in.(*ssa.Call)
 		if !ok || an.CalleeName(&call.Call) != "net/http.Header.Set" {
 			return
@@ -478,7 +542,7 @@ func ruleTraceHelper(c *Ctx, rule string) {
 		if n, _ := strConst(call.Call.Args[1]); n != "Content-Length" {
 			return
 		}
-		v := c.O.Of(call.Call.Args[2])
+		v := termOf(call.Call.Args[2], in)
 		good := false
 		if written != nil && v.Op == "call" && (v.S == "strconv.Itoa" || v.S == "strconv.FormatInt") && len(v.Args) > 0 {
 			l := v.Args[0]
@@ -534,8 +598,17 @@ func ruleHeadWriter(c *Ctx, rule string) {
 			// the wrapper is not used on other methods either: no alloc reachable with Method != HEAD is implied by dominance
 			t := c.O.Of(al)
 			embeds := ""
+			// the field (embedded or named) that holds the wrapped http.ResponseWriter
+			wrapped := map[string]bool{"ResponseWriter": true}
+			if st, ok := al.Type().(*types.Pointer).Elem().Underlying().(*types.Struct); ok {
+				for i := 0; i < st.NumFields(); i++ {
+					if isResponseWriter(st.Field(i).Type()) {
+						wrapped[st.Field(i).Name()] = true
+					}
+				}
+			}
 			for i, n := range t.Names {
-				if n == "ResponseWriter" {
+				if wrapped[n] {
 					embeds = t.Args[i].String()
 				}
 			}
